@@ -9,6 +9,14 @@ TB = ("Trusted base: go/types+go/ssa (x/tools v0.29.0) front end, the govc VC ge
       "assumed contracts of external libraries listed per run in the evidence file. ")
 
 CLAIMS = {
+ "C08": dict(
+   technique="contract-based deductive verification: functional contracts that determine results independently of map order (go/ssa + SMT) plus structural order-independence obligations on every raw map range of the SSA",
+   text=("Every raw `range` over a map in /repo (the set is recomputed from the SSA on each run, zero annotations) must meet one of four criteria: point-wise stores at the loop key; stores at the loop value with a proved injectivity obligation; "
+         "collect-then-sort; or a contract proved to determine the result. On top: maps.Keys is proved to return each key once in strictly increasing order, maps.Iterate is proved to call its callback once per key in that order, "
+         "imports.Imports() is strictly increasing in the path, decorateImport's contract is proved to admit one result, mergeMap is specified point-wise, the scope keyword tables are fixed by a proved global invariant. "
+         "Structural obligations on the call graph: no reads of environment, clock, working directory or randomness, no goroutines, package-level variables written only in init."),
+   note=("Uniqueness of a strictly increasing enumeration of a set (M2) is a stated meta-lemma, not machine-checked. Assumed: yaml.v3 decoding into maps loses key order, goimports/gofmt/gonum/fatih-color are deterministic; the alias counter of the imports table advances in the order of a sorted traversal only as far as the compile steps are under contract (C02/C03 not yet claimed). " + TB),
+   design="DESIGN.md section 4 C08"),
  "C10": dict(
    technique="contract-based deductive verification: contracts over a ghost trace of effectful calls on the real runner steps (go/ssa), SMT; structural single-writer obligation on the SSA call graph",
    text=("Proof over the step algebra, for all step lists and all step behaviours: Runner.Run runs the steps in order up to and including the first failing one and returns exactly that step's error, nil iff all ran and returned nil; "
